@@ -10,6 +10,7 @@ import (
 
 	"github.com/apparentlymart/go-versions/versions"
 	"github.com/hashicorp/go-slug/sourceaddrs"
+	"github.com/hashicorp/go-slug/sourcebundle"
 )
 
 // builder lane (C08 C14 C17; also used by C12 C13 C09): NewBuilder/Add*/Close with a scripted
@@ -20,6 +21,40 @@ var bPkgPool = []string{
 	"git::https://example.com/p0.git", "git::https://example.com/p1.git", "https://example.com/a2.tar.gz",
 	"git::https://example.com/q3.git?ref=v1", "git::ssh://example.com/s4.git", "https://example.com/dl/a5.tgz?x=y",
 }
+// package URLs in a non-canonical spelling (raw space, '|', non-ASCII letter, unescaped quote, '^'): url.Parse
+// keeps the spelling in RawPath; addresses of these packages are BUILT with sourceaddrs.MakeRemoteSource from
+// the parsed URL, not parsed from a string (seed C08-f: the built value must equal the one a re-opened bundle
+// reads back from its manifest)
+var bOddPkgPool = []struct{ Type, Spelling string }{
+	{"https", "https://example.com/my dir/a|b.tgz"},
+	{"git", "https://example.com/r\u00e9/p6.git"},
+	{"https", "https://example.com/dl/q\"7.tar.gz?x=y"},
+	{"git", "ssh://example.com/s 8.git"},
+	{"git", "https://example.com/g^9.git?ref=v1"},
+}
+
+// versions no listing of the pool contains: below all of them, between two, above all, pre-releases
+var bUnlistedVerPool = []string{"0.0.1", "0.9.5", "1.0.5", "1.2.3-rc1", "1.5.0", "2.1.0-beta2", "2.1.0", "3.0.0", "9.9.9", "2.0.1-alpha"}
+
+// pickUnlisted: a version the registry package does not list (pool entries and versions other listings use)
+func pickUnlisted(r *Rng, reg BReg) string {
+	cands := append(append([]string{}, bUnlistedVerPool...), bVerPool...)
+	start := r.Intn(len(cands))
+	for k := 0; k < len(cands); k++ {
+		v := cands[(start+k)%len(cands)]
+		listed := false
+		for _, o := range reg.Versions {
+			if o.Ver == v {
+				listed = true
+			}
+		}
+		if !listed {
+			return v
+		}
+	}
+	return "9.9.9"
+}
+
 // the first two differ in the registry host only (seed C17-c: tables keyed without the host)
 var bRegPool = []string{"example.com/ns/m0/aws", "other.example.org/ns/m0/aws", "ns/m1/aws", "example.com/ns/m2/azurerm"}
 var bVerPool = []string{"1.0.0", "1.1.0", "1.2.3", "2.0.0", "2.1.0-beta1", "0.9.0", "1.10.0"}
@@ -41,6 +76,22 @@ func genBWorld(r *Rng, faulty bool) (*BWorld, []BOp) {
 	perm := r.Intn(len(bPkgPool))
 	for i := 0; i < npk; i++ {
 		p := BPkg{Addr: bPkgPool[(perm+i)%len(bPkgPool)], Content: fmt.Sprintf("c%d", i)}
+		if r.Chance(12) {
+			o := bOddPkgPool[r.Intn(len(bOddPkgPool))]
+			src, err := oddRemote(o.Type, o.Spelling, "")
+			if err != nil {
+				panic("harness: odd package pool entry " + o.Spelling + ": " + err.Error())
+			}
+			addr, used := src.Package().String(), false
+			for _, q := range w.Pkgs {
+				if q.Addr == addr {
+					used = true
+				}
+			}
+			if !used {
+				p.Addr, p.SrcType, p.Spelling = addr, o.Type, o.Spelling
+			}
+		}
 		if i > 0 && r.Chance(20) {
 			p.Content = w.Pkgs[r.Intn(i)].Content // coalescing
 		}
@@ -139,17 +190,37 @@ func genBWorld(r *Rng, faulty bool) (*BWorld, []BOp) {
 			}
 		}
 	}
+	w.SharedDiags = r.Chance(50)
+	if w.SharedDiags && r.Chance(60) {
+		// a finder that raises one kept warning about the same file name for most of what it analyses,
+		// whatever the package (seed C12-f: the second package's diagnostic must not name the first)
+		f := r.Intn(2)
+		kept := BDecl{Kind: "w", Summary: r.Pick([]string{"kept warning", "deprecated syntax"}), File: r.Pick([]string{"main.tf", "m/main.tf", "main.tf", ""})}
+		for i := range w.Deps {
+			if w.Deps[i].Finder == f && r.Chance(75) {
+				w.Deps[i].Decls = append(w.Deps[i].Decls, kept)
+			}
+		}
+	}
 	var ops []BOp
 	nops := 1 + r.Intn(4)
+	agHi := 90
+	if faulty {
+		agHi = 80 // more AddFinalRegistrySource calls where a pinned version may be one the registry does not offer
+	}
 	for i := 0; i < nops; i++ {
 		switch x := r.Intn(100); {
 		case x < 60 || nreg == 0:
 			ops = append(ops, BOp{Kind: "ar", Pkg: w.Pkgs[r.Intn(npk)].Addr, Sub: r.Pick(bSubPool), Finder: r.Intn(2)})
-		case x < 90:
+		case x < agHi:
 			ops = append(ops, BOp{Kind: "ag", Pkg: w.Regs[r.Intn(nreg)].Addr, Sub: r.Pick([]string{"", "k", "m"}), Allowed: pickAllowed(r, faulty), Finder: r.Intn(2)})
 		default:
 			reg := w.Regs[r.Intn(nreg)]
-			if len(reg.Versions) > 0 {
+			if faulty && r.Chance(50) {
+				// a pinned version the registry does not (or no longer) offer: the build must report an error,
+				// not fall back to another version (seed C17-f)
+				ops = append(ops, BOp{Kind: "af", Pkg: reg.Addr, Sub: r.Pick([]string{"", "k"}), Allowed: pickUnlisted(r, reg), Finder: r.Intn(2)})
+			} else if len(reg.Versions) > 0 {
 				ops = append(ops, BOp{Kind: "af", Pkg: reg.Addr, Sub: r.Pick([]string{"", "k"}), Allowed: reg.Versions[r.Intn(len(reg.Versions))].Ver, Finder: r.Intn(2)})
 			}
 		}
@@ -371,6 +442,13 @@ func checkBCase(c *bCase) (why string) {
 	w := c.World
 	for _, p := range w.Pkgs {
 		mustRemote(p.Addr, "")
+		if p.Spelling != "" {
+			// a package whose addresses are built from parts: the spelling must print as the recorded address
+			// (the fetcher and the model know the package by its printed form)
+			if got := w.remote(p.Addr, "").Package().String(); got != p.Addr {
+				panic(fmt.Sprintf("spelling %q prints as %q, not as the recorded address %q", p.Spelling, got, p.Addr))
+			}
+		}
 	}
 	for _, r := range w.Regs {
 		mustRegistry(r.Addr, "")
@@ -391,7 +469,7 @@ func checkBCase(c *bCase) (why string) {
 			finder(dc.Finder)
 			switch dc.Kind {
 			case "r":
-				mustRemote(dc.Pkg, dc.Sub)
+				w.remote(dc.Pkg, dc.Sub)
 			case "g":
 				mustRegistry(dc.Pkg, dc.Sub)
 				allowedSet(dc.Allowed)
@@ -409,7 +487,7 @@ func checkBCase(c *bCase) (why string) {
 		finder(o.Finder)
 		switch o.Kind {
 		case "ar":
-			mustRemote(o.Pkg, o.Sub)
+			w.remote(o.Pkg, o.Sub)
 		case "ag":
 			mustRegistry(o.Pkg, o.Sub)
 			allowedSet(o.Allowed)
@@ -450,7 +528,7 @@ func hasErrorDiag(results []string) bool {
 
 func init() {
 	lanes["builder"] = func(cfg *Config, rep *Report) {
-		rep.Rule = "scripted worlds: 2..5 remote packages (git/https/ssh, with query strings; shared content for coalescing), 0..2 registry packages with 1..4 versions (incl. pre-release, shuffled listing, deprecations), dependency tables per (content, sub-path, finder) with remote / registry / relative edges (cycles, diamonds, self-references arise freely), warnings with valid and invalid file names; 1..5 Add calls incl. repeats and AddFinalRegistrySource; one third of the worlds contain failing fetches/registry answers/escaping relative paths/error diagnostics; non-trivial = has a registry hop, a relative edge or a repeated Add; distinct by (world, ops)"
+		rep.Rule = "scripted worlds: 2..5 remote packages (git/https/ssh, with query strings; shared content for coalescing), 0..2 registry packages with 1..4 versions (incl. pre-release, shuffled listing, deprecations), dependency tables per (content, sub-path, finder) with remote / registry / relative edges (cycles, diamonds, self-references arise freely), warnings with valid and invalid file names; about a third of the worlds hold a package whose URL is spelled non-canonically (raw space, '|', non-ASCII letter, quote, '^') and whose addresses are built with MakeRemoteSource from the parsed URL wherever they are added, reported or looked up; in half of the worlds the finders keep one pair of range objects per file name and hand it out with every diagnostic about that file (often one kept warning for most artefacts of a finder); 1..5 Add calls incl. repeats and AddFinalRegistrySource (in failing worlds half of them pin a version the registry does not list: below all, between two, above all, pre-releases); lookups on the bundle returned by Close and on the re-opened one; one third of the worlds contain failing fetches/registry answers/escaping relative paths/error diagnostics; non-trivial = has a registry hop, a relative edge or a repeated Add; distinct by (world, ops)"
 		r := NewRng(cfg.Seed)
 		if cfg.Work == "" {
 			rep.Broken = append(rep.Broken, "builder lane needs -work")
@@ -562,6 +640,87 @@ func judgeBuild(rep *Report, c *bCase, run *bRun, i int) {
 			}
 		}
 	}
+	// C12: every finder diagnostic reaches the caller and the tracer once, naming the package that was
+	// being analysed when the finder raised it (P//file for a valid sub-path file name; the name as given
+	// otherwise), severity and text intact (seed C12-f: kept range objects rewritten in place)
+	{
+		var caller []deliveredDiag
+		for _, ds := range run.diagsRaw {
+			for _, d := range ds {
+				switch d.Description().Summary {
+				case "Cannot resolve module registry package", "Cannot install source package", "Invalid relative source address":
+					continue
+				}
+				caller = append(caller, deliveredOf(d))
+			}
+		}
+		run.env.mu.Lock()
+		raised := append([]finderDiagRec{}, run.env.finderDiags...)
+		traced := append([]deliveredDiag{}, run.env.tracedDiags...)
+		run.env.mu.Unlock()
+		judgeFinderDiags(w, raised, caller, "the caller", fail)
+		// distribution: builds in which one finder raised diagnostics about one (valid) file name for two
+		// different packages, i.e. a kept range object is handed out for a second package
+		if len(raised) > 0 {
+			rep.Count("diags:builds-with-finder-diagnostics")
+			pk := map[string]bool{}
+			for _, a := range raised {
+				pk[a.pkg] = true
+			}
+			if len(pk) > 1 {
+				rep.Count("diags:for-two-or-more-packages")
+			}
+		}
+		if w.SharedDiags {
+			reused := false
+			for i, a := range raised {
+				for _, b := range raised[:i] {
+					if a.finder == b.finder && a.file == b.file && a.pkg != b.pkg && sourceaddrs.ValidSubPath(a.file) {
+						reused = true
+					}
+				}
+			}
+			if reused {
+				rep.Count("diags:kept-range-reused-for-second-package")
+			}
+		}
+		if !run.env.noDiagCb {
+			judgeFinderDiags(w, raised, traced, "the tracer", fail)
+		}
+	}
+	// C17: a final registry source resolves to exactly its version or the build reports an error
+	// (seed C17-f: a pinned version the registry does not offer silently replaced by an older one)
+	for k, op := range c.Ops {
+		if op.Kind != "af" || k >= len(run.results) || run.results[k] == "refused" || hasErrorDiag(run.results[k:k+1]) {
+			continue
+		}
+		offered, listing := false, []string{}
+		for _, rg := range w.Regs {
+			if rg.Addr == op.Pkg && !rg.Err {
+				for _, v := range rg.Versions {
+					listing = append(listing, v.Ver)
+					if versions.MustParseVersion(v.Ver).Same(versions.MustParseVersion(op.Allowed)) {
+						offered = true
+					}
+				}
+			}
+		}
+		if !offered {
+			asked := []string{}
+			for _, ev := range run.env.log {
+				if strings.HasPrefix(ev, "sc:"+X(op.Pkg)+":") {
+					v, _ := UnX(strings.TrimPrefix(ev, "sc:"+X(op.Pkg)+":"))
+					asked = append(asked, v)
+				}
+			}
+			fail("C17", fmt.Sprintf("AddFinalRegistrySource(%s@%s) reports no error although the registry does not offer %s (it offers [%s]); the registry was asked for the source of [%s]", op.Pkg, op.Allowed, op.Allowed, strings.Join(listing, " "), strings.Join(asked, " ")))
+		} else if run.bundle != nil {
+			fin := mustRegistry(op.Pkg, op.Sub).Versioned(versions.MustParseVersion(op.Allowed))
+			if _, err := run.bundle.LocalPathForFinalRegistrySource(fin); err != nil {
+				fail("C17", fmt.Sprintf("final registry source %s was added without error but the bundle cannot look it up at that version: %v", fin, err))
+			}
+		}
+	}
 	// C14: bracketing always; exactly-once in fault-free builds
 	for _, p := range checkTrace(run.env.log, !errs) {
 		fail("C14", p)
@@ -612,6 +771,11 @@ func judgeBuild(rep *Report, c *bCase, run *bRun, i int) {
 	// C08: lookups
 	b := run.bundle
 	root, _ := filepath.EvalSymlinks(run.target)
+	// the same lookups on the bundle re-opened from the target directory
+	reopened, rerr := sourcebundle.OpenDir(run.target)
+	if rerr != nil {
+		fail("C08", fmt.Sprintf("the finished bundle cannot be re-opened: %v", rerr))
+	}
 	content := map[string]string{}
 	meta := map[string]BPkg{}
 	for _, p := range w.Pkgs {
@@ -624,16 +788,31 @@ func judgeBuild(rep *Report, c *bCase, run *bRun, i int) {
 	}
 	sort.Slice(arts, func(i, j int) bool { return arts[i].pkg+arts[i].sub < arts[j].pkg+arts[j].sub })
 	for _, a := range arts {
-		src := mustRemote(a.pkg, a.sub)
+		// the address value that was added / reported (built from parts for spelled packages)
+		src := w.remote(a.pkg, a.sub)
+		how := ""
+		for _, p := range w.Pkgs {
+			if p.Addr == a.pkg && p.Spelling != "" {
+				how = fmt.Sprintf(" (the address built with MakeRemoteSource(%q, url.Parse(%q), %q), as it was added)", p.SrcType, p.Spelling, a.sub)
+			}
+		}
 		lp, err := b.LocalPathForSource(src)
 		if err != nil {
-			fail("C08", fmt.Sprintf("lookup of %s fails: %v", src, err))
+			fail("C08", fmt.Sprintf("lookup of %s%s fails: %v", src, how, err))
 			continue
+		}
+		if lpr, err := b.LocalPathForRemoteSource(src); err != nil || lpr != lp {
+			fail("C08", fmt.Sprintf("LocalPathForRemoteSource(%s)%s = %q, %v; LocalPathForSource gives %q", src, how, lpr, err, lp))
+		}
+		if reopened != nil {
+			if lpo, err := reopened.LocalPathForSource(src); err != nil || lpo != lp {
+				fail("C08", fmt.Sprintf("lookup of %s%s in the re-opened bundle = %q, %v; the bundle returned by Close gives %q", src, how, lpo, err, lp))
+			}
 		}
 		if !within(run.target, lp) && !within(root, lp) {
 			fail("C08", fmt.Sprintf("lookup of %s returns %s, outside the bundle directory", src, lp))
 		}
-		pkgRoot, _ := b.LocalPathForRemoteSource(mustRemote(a.pkg, ""))
+		pkgRoot, _ := b.LocalPathForRemoteSource(w.remote(a.pkg, ""))
 		if filepath.Join(pkgRoot, filepath.FromSlash(a.sub)) != lp {
 			fail("C08", fmt.Sprintf("lookup of %s is %s, not the package directory joined with the sub-path", src, lp))
 		}
@@ -671,7 +850,7 @@ func judgeBuild(rep *Report, c *bCase, run *bRun, i int) {
 			continue
 		}
 		pk, sb, _ := strings.Cut(want, "|")
-		lp2, err := b.LocalPathForRemoteSource(mustRemote(pk, strings.Trim(sb+"/"+rq.sub, "/")))
+		lp2, err := b.LocalPathForRemoteSource(w.remote(pk, strings.Trim(sb+"/"+rq.sub, "/")))
 		if err != nil || lp2 != lp {
 			fail("C08", fmt.Sprintf("registry source %s@%s resolves to %s, the remote address joined with the sub-path to %s", regSrc, rq.ver, lp, lp2))
 		}
@@ -695,6 +874,71 @@ func judgeBuild(rep *Report, c *bCase, run *bRun, i int) {
 			if _, ok := ref.resolved[rp.String()+"|"+v.String()]; !ok {
 				fail("C17", fmt.Sprintf("version %s of %s recorded although no request selects it", v, rp))
 			}
+		}
+	}
+}
+
+// judgeFinderDiags compares what the finders raised (with the package under analysis) with what reached
+// `who`, as multisets of (severity, summary, file name as it must be delivered).
+func judgeFinderDiags(w *BWorld, raised []finderDiagRec, got []deliveredDiag, who string, fail func(prop, what string)) {
+	type key struct {
+		isErr         bool
+		summary, name string
+	}
+	sev := func(e bool) string {
+		if e {
+			return "error"
+		}
+		return "warning"
+	}
+	want := map[key]int{}
+	origin := map[key]finderDiagRec{}
+	for _, rd := range raised {
+		name := rd.file
+		if sourceaddrs.ValidSubPath(rd.file) {
+			name = mustRemote(rd.pkg, "").Package().SourceAddr(rd.file).String()
+		}
+		k := key{rd.isErr, rd.summary, name}
+		want[k]++
+		origin[k] = rd
+	}
+	have := map[key]int{}
+	for _, d := range got {
+		if !d.hasSubject {
+			fail("C12", fmt.Sprintf("finder diagnostic %q reached %s without its subject range", d.summary, who))
+			continue
+		}
+		if d.hasContext && d.context != d.subject {
+			fail("C12", fmt.Sprintf("finder diagnostic %q reached %s with subject file %q but context file %q (the finder gave both ranges the same file name)", d.summary, who, d.subject, d.context))
+		}
+		have[key{d.isErr, d.summary, d.subject}]++
+	}
+	var keys []key
+	for k := range want {
+		keys = append(keys, k)
+	}
+	for k := range have {
+		if _, ok := want[k]; !ok {
+			keys = append(keys, k)
+		}
+	}
+	sort.Slice(keys, func(i, j int) bool {
+		a, b := keys[i], keys[j]
+		if a.name != b.name {
+			return a.name < b.name
+		}
+		if a.summary != b.summary {
+			return a.summary < b.summary
+		}
+		return !a.isErr && b.isErr
+	})
+	for _, k := range keys {
+		switch {
+		case have[k] < want[k]:
+			o := origin[k]
+			fail("C12", fmt.Sprintf("finder %s %q about file %q, raised %d time(s) while analysing package %s, reached %s %d time(s) as %q", sev(k.isErr), k.summary, o.file, want[k], o.pkg, who, have[k], k.name))
+		case have[k] > want[k]:
+			fail("C12", fmt.Sprintf("%s received %d finder %s(s) %q naming %q; the finders raised %d with that text for that package and file", who, have[k], sev(k.isErr), k.summary, k.name, want[k]))
 		}
 	}
 }
